@@ -229,6 +229,9 @@ func (d *DHCP) Write(b []byte) (n int, err error) {
 	if err = binary.Read(buf, binary.BigEndian, &clientHWAddr); err != nil {
 		return
 	}
+	if d.HardwareLen > 16 {
+		return n, errors.New("Bad DHCP hardware address length")
+	}
 	d.ClientHWAddr = net.HardwareAddr(clientHWAddr[:d.HardwareLen])
 	n += 16
 
@@ -492,6 +495,10 @@ func DHCPParseOptions(in []byte) (opts []DHCPOption, err error) {
 			if len(in)-pos >= 1 {
 				_len := in[pos]
 				pos++
+				if pos+int(_len) > len(in) {
+					err = errors.New("DHCP option is longer than the options field")
+					return
+				}
 				opts = append(opts, DHCPNewOption(tag, in[pos:pos+int(_len)]))
 				pos += int(_len)
 			}
